@@ -25,6 +25,10 @@ claimed = {
    text="Seeded search over third-party interference instants (by virtual time and by scheduler decision index, between and inside control cycles), externally written modes/PWM values, curve trajectories, algorithms and read-back-faithful PWM maps, against the real controller + real hwmon fan code in virtual time; oracle on driver files and the public statistics after the next full cycle. A clean batch is evidence, not proof.",
    note=L1NOTE+"Interference that lands inside a running cycle is only required to be undone and counted at most once.",
    tech="deterministic simulation (seeded schedule + third-party fault injection), oracle on driver state per control cycle"),
+ "C08": dict(cat="exploration", ref="§3/C08",
+   text="The real sensor monitor polls hwmon, file and cmd sensors in virtual time over seeded reading programmes and window sizes 1..50 while read faults (missing/empty/garbage/huge file, EIO, EACCES, command exit!=0, timeout, killed, nan/inf/garbage/empty output) are injected at seeded polls; after every poll the smoothed value is checked against hull, geometric convergence and exact invariance under failed polls.",
+   note=L1NOTE+"EIO/EACCES and command timeouts are returned by the seam instead of the failing syscall; all other faults are produced by changing the real file / script so that the repository's own parsing runs. Floating-point tolerance 1e-12 (hull) / 1e-9 (convergence).",
+   tech="deterministic simulation with read-fault injection, per-poll invariants against a reference hull/convergence model"),
  "C10": dict(cat="exploration", ref="§3/C10",
    text="Bounded liveness in counted RPM polls under a simulated clock: for seeded window sizes 1..50, prior RPM histories and stall instants, the request must rise within 20n+20 polls of continuous 0 RPM (again after each raise), and at the maximum the controller must report, stop regulating and restore the fan. Minutes of polling cost seconds in virtual time.",
    note=L1NOTE+"The constant 20 is an oracle parameter taken from the property wording; cycles run at least as often as polls; algorithms restricted to those that settle (premise: request unchanged).",
